@@ -10,6 +10,7 @@ from loguru import logger
 from mdpax.core.problem import Problem, ProblemConfig
 from mdpax.core.solver import SolverConfig, SolverInfo, SolverState
 from mdpax.solvers.value_iteration import ValueIteration
+from mdpax.utils import _verif
 from mdpax.utils.logging import get_convergence_format
 from mdpax.utils.types import (
     ValueFunction,
@@ -332,10 +333,14 @@ class PeriodicValueIteration(ValueIteration):
             SolverState containing final values [n_states], optimal policy [n_states, action_dim],
             and SolverInfo including iteration count and value history.
         """
+        if _verif.ENABLED:
+            _verif.emit("solve_begin", solver=self, max_iterations=max_iterations)
         for _ in range(max_iterations):
             self.iteration += 1
             new_values, conv = self._iteration_step()
             self.values = new_values
+            if _verif.ENABLED:
+                _verif.emit("sweep", solver=self, conv=conv)
 
             logger.info(
                 f"Iteration {self.iteration}: {self._convergence_desc}: {conv:{self.convergence_format}}"
@@ -346,6 +351,8 @@ class PeriodicValueIteration(ValueIteration):
                 logger.info(
                     f"Convergence threshold reached at iteration {self.iteration}"
                 )
+                if _verif.ENABLED:
+                    _verif.emit("converged", solver=self)
                 break
 
             if (
@@ -369,6 +376,8 @@ class PeriodicValueIteration(ValueIteration):
         logger.success("Periodic value iteration completed")
         if conv < self.conv_threshold:
             self._clear_value_history()
+        if _verif.ENABLED:
+            _verif.emit("solve_end", solver=self)
         return self.solver_state
 
     def _clear_value_history(self) -> None:
